@@ -9,6 +9,10 @@ def stateNum : SState → Nat
 def msgStr : Msg → String
   | .keepAlive => "ka" | .data => "dc" | .statusChange => "sc"
 
+def actStr : Action → String
+  | .none => "none" | .keepAlive => "keepAlive" | .notifications => "notifications"
+  | .created => "created" | .expired => "expired"
+
 def showResps (out : List Resp) : String :=
   "[" ++ ",".intercalate (out.map fun (r, k, n) => toString r ++ ":" ++ msgStr k ++ ":" ++ toString n) ++ "]"
 
@@ -41,6 +45,21 @@ def dstep (z : Sess) (toks : List String) : Sess × String :=
       | .tooMany z' out => (z', "ok res=toomany " ++ showSess z' out)
       | .panic => (z, "panic")
     | none => (z, "bad-op")
+  | ["us", st, life, ka, sent, en, ml, mka, t, na, more, req, ex] =>
+    -- ONE call of `update_state` from an arbitrary position (the session is not touched)
+    match st.toNat?, life.toNat?, ka.toNat?, parseBool? sent, parseBool? en, ml.toNat?, mka.toNat? with
+    | some st, some life, some ka, some sent, some en, some ml, some mka =>
+      match parseBool? t, parseBool? na, parseBool? more, parseBool? req, parseBool? ex with
+      | some t, some na, some more, some req, some ex =>
+        let state : SState := match st with
+          | 0 => .closed | 1 => .creating | 2 => .normal | 3 => .late | _ => .keepAlive
+        let s : Subn := { mk ml mka en false with state := state, life := life, ka := ka, sent := sent }
+        match updateState s t { na := na, more := more, req := req, expired := ex } with
+        | some (s', row, a) =>
+          (z, s!"ok row={row} act={actStr a} st={stateNum s'.state} life={s'.life} ka={s'.ka} sent={boolStr s'.sent}")
+        | none => (z, "ok row=panic")
+      | _, _, _, _, _ => (z, "bad-op")
+    | _, _, _, _, _, _, _ => (z, "bad-op")
   | _ => (z, "bad-op")
 
 def driver : Driver :=
